@@ -1,2 +1,102 @@
-From ZC Require Import Model.Base Model.Route.
-Example C11_placeholder : True. Proof. exact I. Qed.
+(* C11 - replies are routed and formatted as RFC 6762 sections 5.4, 6 and 6.7 require. Statements only.
+   Model/Respond.v (classification into unicast / multicast-now / aggregate / last-second) and Model/Route.v (handle_assembled_query,
+   the construct_outgoing helpers), tied to the real QueryHandler by the correspondence check. Vocabulary: Proofs/C11_lemmas.v
+   (recent, last_second, inset, answers_of, response, only_in, qm_class, multicast_actions ...). *)
+From ZC Require Import Model.Base Model.PyRec Model.Dict Model.Cache Model.Respond Model.Route Model.WireEnc Gen.Const Gen.Extra Gen.DnsPure
+  Proofs.C11_lemmas Proofs.C11_route.
+
+(* "seen multicast within a quarter of its TTL" / "less than a second ago", read off the cache *)
+Theorem C11_recent : forall c now r,
+  (recent c now r = true <-> exists e, async_get_unique c r = Some e /\ p_created e + 250 * p_ttl e > now) /\
+  (last_second c now r = true <-> exists e, async_get_unique c r = Some e /\ now - p_created e < 1000).
+Proof. intros; split; [apply recent_spec | apply last_second_spec]. Qed.
+
+(* a query from a source port other than 5353 gets a unicast reply to that address and port, echoing the id and the questions of
+   the first packet, with no cache-flush bits - in addition to the normal multicast handling of every answer *)
+Theorem C11_legacy : forall g c m0 ms first_id addr port qa,
+  port <> C_MDNS_PORT -> response g c (m0 :: ms) port = Some qa -> qa_ucast qa <> [] ->
+  (exists m rest,
+     handle_assembled_query g c (m0 :: ms) first_id addr port = AUnicast addr port m :: rest /\
+     o_id m = first_id /\ o_questions m = qm_questions m0 /\ o_multicast m = false /\
+     o_flags m = 33792 /\ o_answers m = map (fun r => (r, 0)) (keys (qa_ucast qa)) /\
+     rest = multicast_actions qa (qm_now m0) /\ rest <> []) /\
+  (forall a, inset a (qa_ucast qa) <-> inset a (qa_mcast_now qa ++ qa_mcast_aggregate qa ++ qa_mcast_last_second qa)).
+Proof. exact legacy_unicast. Qed.
+
+Theorem C11_unicast_no_flush_bit : forall st r, write_record_class false st r = write_short st (DNSEntry_class_ r).
+Proof. exact unicast_class_without_flush_bit. Qed.
+
+(* a QU question from port 5353 (not a probe): unicast alone when the record was multicast within a quarter of its TTL, otherwise
+   multicast at once and no unicast *)
+Theorem C11_qu : forall g c m q qa,
+  qm_questions m = [q] -> DNSEntry_unique q = true -> qm_is_probe m = false ->
+  response g c [m] C_MDNS_PORT = Some qa ->
+  qa_mcast_aggregate qa = [] /\ qa_mcast_last_second qa = [] /\
+  forall r, In r (answers_of g [m] q) ->
+    (recent c (qm_now m) r = true ->
+       inset r (qa_ucast qa) /\ ~ inset r (qa_mcast_now qa) /\ ~ inset r (qa_mcast_aggregate qa) /\ ~ inset r (qa_mcast_last_second qa)) /\
+    (recent c (qm_now m) r = false -> inset r (qa_mcast_now qa) /\ ~ inset r (qa_ucast qa)).
+Proof. exact qu_routing. Qed.
+
+(* probes (from port 5353) are answered at once: QU probes by unicast, plus multicast when the record was not recently multicast;
+   QM probes by multicast *)
+Theorem C11_probe : forall g c m q qa,
+  qm_questions m = [q] -> qm_is_probe m = true ->
+  response g c [m] C_MDNS_PORT = Some qa ->
+  qa_mcast_aggregate qa = [] /\ qa_mcast_last_second qa = [] /\
+  (DNSEntry_unique q = true -> forall r, In r (answers_of g [m] q) ->
+       inset r (qa_ucast qa) /\ (inset r (qa_mcast_now qa) <-> recent c (qm_now m) r = false)) /\
+  (DNSEntry_unique q = false -> qa_ucast qa = [] /\ forall r, In r (answers_of g [m] q) -> inset r (qa_mcast_now qa)).
+Proof. exact probe_routing_partial. Qed.
+
+(* a probe from another port is a legacy query: unicast and multicast at once, whatever the QU bit says *)
+Theorem C11_probe_legacy : forall g c m q qa port,
+  port <> C_MDNS_PORT -> qm_questions m = [q] -> qm_is_probe m = true -> response g c [m] port = Some qa ->
+  qa_mcast_aggregate qa = [] /\ qa_mcast_last_second qa = [] /\
+  forall r, In r (answers_of g [m] q) -> inset r (qa_ucast qa) /\ inset r (qa_mcast_now qa).
+Proof. exact probe_routing_legacy. Qed.
+
+(* an ordinary QM question from port 5353 is never answered by unicast; each answer goes to exactly one multicast class:
+   held back one second if seen less than a second ago, else at once for a single SRV / A / AAAA / NSEC question, else aggregated *)
+Theorem C11_qm : forall g c m q qa,
+  qm_questions m = [q] -> DNSEntry_unique q = false -> qm_is_probe m = false ->
+  response g c [m] C_MDNS_PORT = Some qa ->
+  qa_ucast qa = [] /\ forall r, In r (answers_of g [m] q) -> only_in r qa (qm_class c (qm_now m) q r).
+Proof. exact qm_routing. Qed.
+
+(* every multicast reply: id 0, response + authoritative flags, no question section; cache-flush bit exactly on unique records,
+   and of a service's records exactly the pointers are shared *)
+Theorem C11_mcast_fmt : forall a, let m := construct_multicast a in
+  o_id m = 0 /\ o_flags m = 33792 /\ o_multicast m = true /\ o_questions m = [] /\ o_authorities m = [] /\
+  o_answers m = map (fun r => (r, 0)) (keys a).
+Proof. exact multicast_format. Qed.
+
+Theorem C11_flush_bit : forall st r,
+  0 <= DNSEntry_class_ r < 32768 /\
+  write_record_class true st r = write_short st (DNSEntry_class_ r + (if DNSEntry_unique r then 32768 else 0)) /\
+  Z.testbit (DNSEntry_class_ r + (if DNSEntry_unique r then 32768 else 0)) 15 = DNSEntry_unique r.
+Proof. exact multicast_class_flush_bit. Qed.
+
+Theorem C11_service_flush_bits : forall s,
+  DNSEntry_unique (dns_pointer s) = false /\ DNSEntry_unique (dns_service s) = true /\ DNSEntry_unique (dns_text s) = true /\
+  (forall r, In r (dns_addresses s) -> p_class_ r = C_CLASS_IN_UNIQUE /\ DNSEntry_unique r = true) /\
+  (forall missing, p_class_ (dns_nsec s missing) = C_CLASS_IN_UNIQUE /\ DNSEntry_unique (dns_nsec s missing) = true) /\
+  (forall t, DNSEntry_unique (enum_pointer t) = false).
+Proof. exact service_record_flush_bits. Qed.
+
+Theorem C11_silent : forall g c msgs first_id addr port,
+  response g c msgs port = None -> handle_assembled_query g c msgs first_id addr port = [].
+Proof. exact no_action_without_answers. Qed.
+
+Print Assumptions C11_recent.
+Print Assumptions C11_legacy.
+Print Assumptions C11_unicast_no_flush_bit.
+Print Assumptions C11_qu.
+Print Assumptions C11_probe.
+Print Assumptions C11_probe_legacy.
+Print Assumptions C11_qm.
+Print Assumptions C11_mcast_fmt.
+Print Assumptions C11_flush_bit.
+Print Assumptions C11_service_flush_bits.
+Print Assumptions C11_silent.
+Print Assumptions response_routing.
